@@ -212,6 +212,27 @@ def point_symbols(truth):
         if tie is not None:
             break
     symbols['tie'] = tie if tie is not None else polys[second].representative_point()
+    # datasets whose cells overlap: a point strictly inside the overlap of cells a < b (belongs to a), and a point
+    # that only the higher cell b holds; asked in either order the answers must be a and b
+    for a in valid:
+        found = False
+        for b in valid:
+            if b <= a:
+                continue
+            shared = polys[a].intersection(polys[b])
+            if shared.area > 0:
+                only_b = polys[b]
+                for other in valid:
+                    if other != b:
+                        only_b = only_b.difference(polys[other])
+                if only_b.area > 0:
+                    symbols['tie'] = shared.representative_point()
+                    symbols['second'] = only_b.representative_point()
+                    tie = symbols['tie']
+                    found = True
+                    break
+        if found:
+            break
     miss = Point(1000.0, 1000.0)
     holes = [n for n, c in enumerate(truth.polygons) if c is None]
     symbols['miss'] = miss
